@@ -18,14 +18,40 @@ from run import Case
 import zoo_c11 as z
 
 PROPERTY = "C11"
-LEAN_MODULE = "PyOak.Props.C11"
+LEAN_MODULE = "PyOak.Props.C11All"
 THEOREMS = ["PyOak.C11." + t for t in [
     "hasNode_iff", "validProp_iff", "validChild_false_iff", "validChild_true_iff",
     "classify_eq_classifyRaw", "classify_child_iff", "classify_prop_iff", "classify_reject_iff",
     "classify_spec", "specVerdict_unique", "childShape_mentionsNode", "prop_hides_no_node",
     "classify_newtype", "classify_erase", "classify_erase_needs_base",
     "defCheck_raised_sound", "classOutcome_eq", "classOutcome_none_iff", "classOutcome_some",
-    "effective_nodup", "fields_partition", "verdict_inherited", "verdict_overridden", "chainOutcome_get", "classOutcome_flatten"]]
+    "effective_nodup", "fields_partition", "verdict_inherited", "verdict_overridden", "chainOutcome_get", "classOutcome_flatten",
+    # Props/C11Shapes.lean: the rejected shapes as general theorems (any depth)
+    "childShape_sub", "childShape_not_mutable", "mutable_rejected", "mutable_subterm_rejected", "mentionsMutable_iff_sub",
+    "mentionsNode_iff_sub", "reject_of_bad_subterm", "classify_trichotomy", "node_never_prop", "mixed_union_rejected",
+    "node_in_container_rejected", "opt_in_tuple_rejected", "nested_tuple_rejected", "optional_tuple_rejected",
+    "listed_shapes_rejected",
+    # Props/C11Fwd.lean: resolved vs unresolved (postponed / string) references
+    "classify_mapRef", "classify_resolveFwd", "classify_deferAll", "hasFwd_resolveAll", "hasFwd_deferAll",
+    "effective_map", "classOutcome_mapLevels", "classOutcome_mapRef", "classOutcome_resolveFwd", "classOutcome_deferAll",
+    "chainOutcome_mapRef", "chainOutcome_resolveFwd", "defCheck_raised_iff_of_noFwd", "reject_moves_to_definition",
+    "accepted_iff_resolved_passes", "defCheck_deferAll",
+    # Props/C11NewType.lean: NewType erasure at any depth
+    "classify_erase_weak", "ntBaseOk_noNoneNT", "noNoneNT_strictly_weaker", "classify_erase_needs_noNoneNT",
+    "union_base_python_erasure", "classify_erase_of_accepted", "classify_erase_cases", "classify_erase_prop_iff",
+    # Props/C11Perm.lean: order of union members
+    "permStep_same", "classify_permStep", "classify_permEq", "specVerdict_permEq", "childShape_permEq",
+    "classify_union_perm", "permEq_swapU", "classify_swapU", "classOutcome_permuted", "chainOutcome_permuted",
+    # Props/C11Class.lean: the two passes; most derived declaration
+    "defCheck_passed_accepts", "defCheck_passed_ne_none", "defCheck_passed_iff", "rejection_is_reported",
+    "classOutcome_none_iff_phase", "never_silently_prop", "lookup_effective", "fieldVerdict_most_derived",
+    "verdict_last_declaration", "verdict_redeclared_twice", "verdict_not_redeclared",
+    # Props/C11Fields.lean: Annot <-> Accessors
+    "dictSet_map", "addField_dictSet_differ", "resolve_eq_effective", "classDecl_fields", "fkind_none_iff",
+    "fkind_prop_iff", "fkind_child_iff", "fkind_tuple_iff", "field_lands_in_exactly_one",
+    "field_lands_in_exactly_one_of_passed"]] + ["PyOak.Annot." + t for t in [
+    "PermEq.trans", "PermEq.newtype", "PermEq.vtuple", "PermEq.arg", "PermEq.member", "PermEq.coll_pointwise",
+    "PermEq.union_pointwise", "PermEq.union"]]
 PARTIAL: list[str] = []
 RULE = ("generated frozen dataclasses deriving from ASTNode, 1-3 classes per inheritance chain (inherited and overriding "
         "fields), field annotations = type terms of depth <= 3 over {int str bool float bytes Any Literal Enum None, "
@@ -39,7 +65,12 @@ RULE = ("generated frozen dataclasses deriving from ASTNode, 1-3 classes per inh
         "three node bases, diamonds, combined classes with an empty and with a non-empty body, marker subclasses, "
         "combined classes of combined classes) with child / property / invalid annotations spread over the bases, "
         "every class of the family observed for EVERY dataclass field and compared with the model on the replay "
-        "of the declarations along the reversed MRO; thorough adds every term of depth "
+        "of the declarations along the reversed MRO; fkind: for every named shape and random terms, a one-field class is "
+        "defined and the table entry process_node_fields made for the field (rejected / property / child with "
+        "FieldTypeInfo.is_collection False / True) is compared with Annot.fkind (the Acc.FKind of the accessor model); "
+        "resolve: chains that name node classes defined only later are also rendered with those names bound to classes "
+        "that already exist (definition-time check runs instead of being skipped): both renderings are compared with "
+        "the model and with each other (Props/C11Fwd.lean chainOutcome_mapRef); thorough adds every term of depth "
         "<= 2 over 5 leaves; non-trivial = some annotation has depth >= 1; distinct by request line + spelling")
 TRUSTED = ["typing.get_type_hints / get_args / get_origin / NewType.__supertype__ / issubclass on collections.abc "
            "(typing-module introspection): the term sent to the model is the term the source text was rendered from",
@@ -521,8 +552,106 @@ def name_shadow_cases(rng, n):
                    f"subclass `class {tname}(ShBase)` defined in another scope", oracle_fail=fail, sig="annot|directed|name-shadow")
 
 
+def observe_fkind(t, sp):
+    """what `process_node_fields` stores for a single field annotated `t`: reject | prop | one | tuple
+    (`FieldTypeInfo.is_collection` of a child field), or other:<exception>"""
+    import builtins
+    import sys
+    import types as _types
+    import __future__
+    from pyoak.error import InvalidFieldAnnotations
+    z.shared()
+    ch = z.Chain([[("f", t)]], sp)
+    mod = _types.ModuleType(ch.modname)
+    sys.modules[ch.modname] = mod
+    ns = mod.__dict__
+    flags = __future__.annotations.compiler_flag if sp.postponed else 0
+    try:
+        try:
+            exec(builtins.compile(ch.header, ch.modname, "exec", flags=flags, dont_inherit=True), ns)
+            exec(builtins.compile(ch.sources[0], ch.modname, "exec", flags=flags, dont_inherit=True), ns)
+            exec(builtins.compile(ch.later, ch.modname, "exec", flags=flags, dont_inherit=True), ns)
+            cls = ns[ch.class_names[0]]
+            cls(f=z.sample_value(t, ns, ch.uid) if z.child_shape(t) else None)
+            kids = {f.name: info for f, info in cls.get_child_fields().items()}
+            props = {f.name for f in cls.get_property_fields()}
+            if "f" in kids and "f" in props:
+                return "other:both", ch
+            if "f" in kids:
+                return ("tuple" if kids["f"].is_collection else "one"), ch
+            return ("prop" if "f" in props else "other:neither"), ch
+        except InvalidFieldAnnotations:
+            return "reject", ch
+        except Exception as e:  # noqa
+            return "other:" + type(e).__name__, ch
+    finally:
+        sys.modules.pop(ch.modname, None)
+
+
+def fkind_cases(rng, n_random):
+    """Model/AnnotAcc.lean `fkind`: the kind of table entry (`Acc.FKind`) a field gets -- the link C11 -> C12"""
+    sps = all_spellings()
+    terms = [(t, "named") for t in NAMED]
+    for _ in range(n_random):
+        terms.append((z.random_ty(rng, rng.choice([1, 2, 2, 3]), rng.choice(["node", "node", "mixed", "prop"])), "random"))
+    for i, (t, origin) in enumerate(terms):
+        sp = sps[(i * 7 + 1) % 16]
+        if rng.random() < 0.5:
+            z.clear_predicate_caches()
+        got, ch = observe_fkind(t, sp)
+        fail = None
+        if got.startswith("other:"):
+            fail = f"{got[6:]} instead of a table entry or InvalidFieldAnnotations"
+        yield Case("fkind/" + origin, dumps([A("c11-fkind"), z.sx(t)]), dumps([A("ok"), A(got)]), z.depth(t) >= 1,
+                   f"[{sp.tag()}] " + ch.sources[0].strip().replace("\n", " ⏎ "), oracle_fail=fail,
+                   sig=f"fkind|{abstract(t)}")
+
+
+def resolve_fwd(t):
+    """Spec/AnnotFwd.lean `resolveAll`: every forward reference becomes a reference to a class that already exists"""
+    k = t[0]
+    if k == "fwd":
+        return ("node", t[1] % 3)
+    if k == "nt":
+        return ("nt", resolve_fwd(t[1]))
+    if k == "union":
+        return ("union", [resolve_fwd(m) for m in t[1]])
+    if k == "vtuple":
+        return ("vtuple", resolve_fwd(t[1]))
+    if k == "coll":
+        return ("coll", t[1], [resolve_fwd(m) for m in t[2]])
+    return t
+
+
+def resolve_invariance_cases(rng, n):
+    """Props/C11Fwd.lean `chainOutcome_mapRef` on the real code: a chain whose annotations name classes defined LATER
+    (unresolvable when the class is defined: the definition-time check is skipped) and the same chain naming classes
+    that already exist get the same outcome, class by class"""
+    for _ in range(n):
+        for _try in range(40):
+            levels = random_levels(rng, rng.choice([1, 2, 2, 3]))
+            if any(z.mentions_fwd(t) for lvl in levels for _, t in lvl):
+                break
+        else:
+            levels = [[("f", ("vtuple", ("fwd", 0)))], [("g", ("coll", "list", [("fwd", 1)]))]]
+        resolved = [[(fn, resolve_fwd(t)) for fn, t in lvl] for lvl in levels]
+        bits = [rng.random() < 0.5 for _ in range(8)]
+        c1, o1 = one_case(levels, z.Spelling(bits[0], bits[1], bits[2], bits[3]), rng, "resolve/late")
+        c2, o2 = one_case(resolved, z.Spelling(bits[4], bits[5], bits[6], bits[7]), rng, "resolve/early")
+        yield c1
+        yield c2
+        fail = None
+        if z.canon(o1) != z.canon(o2):
+            fail = (f"outcome differs between forward references and resolved references: {dumps(z.canon(o1))} vs "
+                    f"{dumps(z.canon(o2))}")
+        yield Case("resolve/invariance", None, None, c1.nontrivial, c1.desc + "  ~~  " + c2.desc, oracle_fail=fail,
+                   sig=c1.sig.replace("classify|", "resolve|", 1))
+
+
 def cases(rng: random.Random, tier: str):
     quick = tier == "quick"
+    yield from fkind_cases(rng, 60 if quick else 1500)
+    yield from resolve_invariance_cases(rng, 40 if quick else 800)
     yield from name_shadow_cases(rng, 8 if quick else 120)
     yield from early_use_cases(rng, 8 if quick else 120)
     # 1. the shapes the statement names
